@@ -156,7 +156,7 @@ func c07Units(c *Ctx) []*c07Unit {
 		// ... plus the holders where several operations / parents compete for one schema
 		for i := range singles {
 			l := singles[i].Label
-			if l == "threeSchemasOneGeneratedNameWithPendingImport" || strings.HasPrefix(l, "collidingImportTwoReferrersInInlineWhoseNameIsTaken") {
+			if l == "threeSchemasOneGeneratedNameWithPendingImport" || strings.HasPrefix(l, "collidingImportTwoReferrersInInlineWhoseNameIsTaken") || strings.HasPrefix(l, "collidingImportReferrersAtTwoDepthsOfTakenInlines") || strings.HasPrefix(l, "takenInlines[") {
 				addUnits(singles, []int{i}) // three rounds of name conflict resolution, with a pending import nested in the third
 			}
 			if (strings.HasPrefix(l, "pathBody<-") || strings.HasPrefix(l, "sharedBody<-")) && (strings.HasSuffix(l, "<-object") || strings.HasSuffix(l, "<-tuple") || strings.HasSuffix(l, "<-collidingImport[sameName]") || strings.HasSuffix(l, "<-pointer[properties,complex]")) {
